@@ -75,12 +75,19 @@ def mk(val, like=None):
 # ----------------------------------------------------------------------------- constants
 PI = z3.Real("pi")
 PI_SYM = Sym(PI, "float")
-_SQRT = z3.Function("sqrt", z3.RealSort(), z3.RealSort())
-_COS = z3.Function("cos", z3.RealSort(), z3.RealSort())
-_SIN = z3.Function("sin", z3.RealSort(), z3.RealSort())
-_ACOS = z3.Function("arccos", z3.RealSort(), z3.RealSort())
-_EXP = z3.Function("exp", z3.RealSort(), z3.RealSort())
-_TANH = z3.Function("tanh", z3.RealSort(), z3.RealSort())
+_SQRT = z3.Function("tp_sqrt", z3.RealSort(), z3.RealSort())
+_COS = z3.Function("tp_cos", z3.RealSort(), z3.RealSort())
+_SIN = z3.Function("tp_sin", z3.RealSort(), z3.RealSort())
+_ACOS = z3.Function("tp_arccos", z3.RealSort(), z3.RealSort())
+_EXP = z3.Function("tp_exp", z3.RealSort(), z3.RealSort())
+_TANH = z3.Function("tp_tanh", z3.RealSort(), z3.RealSort())
+_CBRT = z3.Function("tp_cbrt", z3.RealSort(), z3.RealSort())
+
+
+def cbrt_term(x):
+    y = _CBRT(x)
+    ctx().axiom(z3.And(y * y * y == x, z3.Implies(x >= 0, y >= 0), z3.Implies(x <= 0, y <= 0)))
+    return y
 
 
 def pi_axioms():
@@ -296,6 +303,10 @@ def power(I, a, b):
         return ew1(a, f, dt)
     if isinstance(b, float) and b == 0.5:
         return t_sqrt(I, a)
+    if isinstance(b, float) and abs(b - 1.0 / 3.0) < 1e-12:
+        idx, hyps = a.generic_index("cb")
+        I.ctx.safety("dom", zreal(a.at(idx)) >= 0, hyps, "fractional power of non-negative")
+        return ew1(a, lambda x: cbrt_term(zreal(x)), "real")
     raise Unsupported(f"tensor power with exponent {b!r}")
 
 
